@@ -29,13 +29,23 @@ type Report struct {
 	Info     []string // information-only notes
 	Funcs    map[string]bool
 	Sites    int
-	rules    map[string]string // rule id -> text
-	ruleOrd  []string
-	cfg      string
+	// for the thorough-tier coverage cross-check against the compiler's remaining bounds checks
+	RegionSpans []Span            // source spans of the functions whose panics are obligations
+	ObLines     map[string]bool   // file:line of every bounds obligation generated
+	rules       map[string]string // rule id -> text
+	ruleOrd     []string
+	cfg         string
+}
+
+// Span is a source range of one function.
+type Span struct {
+	File       string
+	Start, End int
+	Func       string
 }
 
 func NewReport(prop string) *Report {
-	return &Report{Property: prop, Funcs: map[string]bool{}, rules: map[string]string{}}
+	return &Report{Property: prop, Funcs: map[string]bool{}, rules: map[string]string{}, ObLines: map[string]bool{}}
 }
 
 // Rule declares a rule text (shown in evidence).
